@@ -102,6 +102,8 @@ structure Built where
   fn : Function
   stmts : List Stmt
   warnings : List String
+  /-- a hook was rejected *after* the body had been built (its warnings are already printed) -/
+  lateError : Option String := none
   deriving Inhabited
 
 /-- `CreateFunction` -/
@@ -135,8 +137,16 @@ def createFunction (env : Env) (eng : Engine) (m : MethodEntry) : Outcome Built 
       then ctx.dispatch fuel (.root srcVar.name src.ty) (.root dstVar.name dst.ty) argNodes
       else ctx.dispatch fuel (.root dstVar.name dst.ty) (.root srcVar.name src.ty) argNodes)
     let retError := m.retError env
-    let pre ← buildManipulator env m.opts.preProcess src dst additional retError
-    let post ← buildManipulator env m.opts.postProcess src dst additional retError
+    let late (msgs : List String) : Outcome Built :=
+      .ok { fn := default, stmts := stmts, warnings := Stmt.listWarnings stmts, lateError := msgs.head? }
+    match buildManipulator env m.opts.preProcess src dst additional retError with
+    | .error msgs => late msgs
+    | .panic s => .panic s
+    | .ok pre =>
+    match buildManipulator env m.opts.postProcess src dst additional retError with
+    | .error msgs => late msgs
+    | .panic s => .panic s
+    | .ok post =>
     pure {
       fn := { comments := m.comments, name := m.decl.name, receiver := m.opts.receiver, src := srcVar,
               dst := dstVar, additionalArgs := argVars, retError := retError, dstVarStyle := m.opts.style,
